@@ -79,9 +79,13 @@ func RunOne(t *testing.T, cfg *Config, follow []Choice, strict bool) *RunResult 
 			// pin every hidden source of nondeterminism for this run
 			simSetPinRand(uint64(cfg.Seed)*0x9e3779b97f4a7c15 | 1)
 			defer simSetPinRand(0)
+			simSetNoYield(true) // the scheduler goroutine itself never parks at a gate
+			simSetYieldFn(yieldHook)
+			defer simSetYieldFn(nil)
 			rand.Seed(cfg.Seed)
 			uuid.SetRand(prngReader{rand.New(rand.NewSource(cfg.Seed))})
 			w = NewWorld(cfg, follow, strict)
+			w.gates = newGateState(cfg.Seed)
 			curWorld = w
 			w.start = time.Now()
 			w.db = newSimStore(w)
@@ -183,7 +187,7 @@ func gcBetweenRuns() {
 
 // finalChecks runs end-of-run oracles (outside the scheduler loop, same bubble).
 func (w *World) finalChecks(sim *Sim) {
-	if w.diverged != "" || len(w.violations) > 0 {
+	if w.diverged != "" || w.hasOwnViolation() {
 		return
 	}
 	w.stopOnViol = false
